@@ -37,7 +37,7 @@ Definition c09_run (input : list Z) : list Z :=
             match r6 with
             | k :: a :: b :: c :: sc :: bits =>
                 match take_lp bits with
-                | Some (bs, []) => let '(r, st') := generate true st k (c04_url a b c) (c04_scope sc) (map bz bs) in c09_obs r st' (datas ++ [k])
+                | Some (bs, []) => let '(r, st') := generate true st k (if c =? -1 then None else Some (c04_url a b c)) (c04_scope sc) (map bz bs) in c09_obs r st' (datas ++ [k])
                 | _ => ERR_DECODE end
             | _ => ERR_DECODE end
           else
